@@ -634,6 +634,7 @@ func TestVerifC10HashEqual(t *testing.T) {
 				continue
 			}
 			r.Nontrivial(fmt.Sprintf("%x|%x", []byte(a), []byte(b)))
+			r.Outcome(fmt.Sprintf("Hash.Equal:len=%d/%d:equal=%v", len(a), len(b), got))
 			if got != want {
 				cls := "different-bytes-reported-equal"
 				if want {
